@@ -1209,8 +1209,77 @@ def raises_too(ctx, idx, spec):
         return True
 
 
+OPT_SCRIPT = r"""
+import json, sys, shutil, tempfile, warnings
+warnings.simplefilter("ignore")
+import numpy as np, pandas as pd, yaw
+from yaw import Catalog, Configuration
+from yaw.coordinates import AngularCoordinates
+spec = json.loads(sys.stdin.read())
+rng = np.random.default_rng(spec["dseed"])
+n = 240
+zs = [0.1, 0.15, 0.2, 0.3, 0.4, 0.45, 0.5, 0.7]
+df = pd.DataFrame({"ra": rng.uniform(10, 12, n), "dec": rng.uniform(-1, 1, n), "z": rng.choice(zs, n)})
+cent = AngularCoordinates(np.deg2rad([[10.5, 0.0], [11.5, 0.0]]))
+def make(d):
+    return Catalog.from_dataframe(d, df, ra_name="ra", dec_name="dec", redshift_name="z", patch_centers=cent, max_workers=1)
+def measure(cat, other, step):
+    kind, edges, closed = step["kind"], step.get("edges"), step.get("closed", "right")
+    if kind == "build":
+        cat.build_trees(edges, closed=closed, force=step.get("force", False), max_workers=1)
+        return None
+    cfg = Configuration.create(rmin=1, rmax=30, unit="arcmin", edges=edges, closed=closed, max_workers=1)
+    if kind == "auto":
+        res = yaw.autocorrelate(cfg, cat, cat, count_rr=False, max_workers=1)
+    else:      # cat as the unbinned (unknown) sample of a cross-correlation
+        res = yaw.crosscorrelate(cfg, other, cat, unk_rand=cat, max_workers=1)
+    return [c.dd.counts.counts.tolist() for c in res], [c.dd.sum_weights.sum_weights1.tolist() for c in res], [c.dd.sum_weights.sum_weights2.tolist() for c in res]
+t = tempfile.mkdtemp()
+out = []
+for i, hist in enumerate(spec["histories"]):
+    a, ra = make(t + "/h%d" % i), make(t + "/hr%d" % i)
+    for step in hist[:-1]:
+        measure(a, ra, step)
+    got = measure(a, ra, hist[-1])
+    b, rb = make(t + "/f%d" % i), make(t + "/fr%d" % i)
+    want = measure(b, rb, hist[-1])
+    out.append(got == want)
+shutil.rmtree(t)
+print(json.dumps(dict(debug=__debug__, same=out)))
+"""
+
+
+def optimised_probe(ctx):
+    """the same guarantee in an interpreter started with -O / PYTHONOPTIMIZE=1 (assert statements are compiled away):
+    a few histories run there, result compared with fresh caches inside that interpreter"""
+    from lib import optmode
+    A, B = [0.1, 0.3, 0.5, 0.7], [0.1, 0.2, 0.4, 0.7]
+    histories = [
+        [dict(kind="auto", edges=A), dict(kind="auto", edges=B)],                                    # other edges, same bin count
+        [dict(kind="auto", edges=A, closed="right"), dict(kind="auto", edges=A, closed="left")],   # other closed side, redshifts on edges
+        [dict(kind="auto", edges=A), dict(kind="cross", edges=B)],                                   # binned, then the unbinned role
+        [dict(kind="build", edges=[0.1, 0.4, 0.7]), dict(kind="auto", edges=A)],                     # other bin count
+        [dict(kind="auto", edges=B), dict(kind="build", edges=A, force=True), dict(kind="auto", edges=A)],
+    ]
+    for label, flags, env in (("-O", ("-O",), None), ("PYTHONOPTIMIZE=1", (), {"PYTHONOPTIMIZE": "1"})):
+        r = optmode.run(OPT_SCRIPT, dict(dseed=ctx.rng.randrange(10 ** 6), histories=histories), flags=flags, env_extra=env)
+        res = r.get("result")
+        ok = res is not None and res.get("debug") is False
+        ctx.obligation("optimised-interpreter probe ran (%s)" % label, ok, "rc=%s %s" % (r.get("rc"), r.get("stderr")))
+        if not ok:
+            continue
+        for i, same in enumerate(res["same"]):
+            ctx.count(key=("optimised", label, i), nontrivial=True, kind="optimised-interpreter/%s" % label)
+            if not same:
+                ctx.fail("c07-measurement-differs-from-fresh-cache:optimised-interpreter",
+                         "with python %s (assert statements compiled away) the measurement after the history %s differs from the same "
+                         "measurement on fresh caches" % (label, histories[i]),
+                         dict(interpreter=label, history=histories[i], script="harness/props/c07.py:OPT_SCRIPT"), case=("optimised", label, i))
+
+
 def run(ctx):
     run_specs(ctx, specs(ctx))
+    optimised_probe(ctx)
 
 
 def replay(ctx, body):
